@@ -26,7 +26,6 @@ func c08Struct(w *core.W, j int) {
 	g := model.NewGen(w.Rng(j))
 	g.NoHuge = true
 	g.MaxOpaque = 90
-	r := g.R
 	for k := 0; k < 12; k++ {
 		l := ls[(j*12+k)%len(ls)]
 		rec := g.Rec(l)
@@ -34,91 +33,7 @@ func c08Struct(w *core.W, j int) {
 		if err != nil || rr == nil {
 			continue
 		}
-		v := reflect.ValueOf(rr)
-		if v.Kind() != reflect.Ptr || v.Elem().Kind() != reflect.Struct {
-			continue
-		}
-		sv := v.Elem()
-		var cand []int
-		for i := 0; i < sv.NumField(); i++ {
-			if sv.Type().Field(i).Name != "Hdr" && sv.Field(i).CanSet() {
-				cand = append(cand, i)
-			}
-		}
-		if len(cand) == 0 {
-			continue
-		}
-		var touched []string
-		for n := 1 + r.IntN(2); n > 0; n-- {
-			i := cand[r.IntN(len(cand))]
-			f := sv.Field(i)
-			sf := sv.Type().Field(i)
-			tag := sf.Tag.Get("dns")
-			what := ""
-			switch f.Kind() {
-			case reflect.Uint8, reflect.Uint16, reflect.Uint32, reflect.Uint64:
-				bits := f.Type().Bits()
-				val := []uint64{0, 1, 2, uint64(1)<<uint(bits) - 1, r.Uint64() >> uint(64-bits), uint64(r.IntN(40))}[r.IntN(6)]
-				f.SetUint(val)
-				what = "int"
-			case reflect.String:
-				raw := g.Bytes(r.IntN(60))
-				switch {
-				case strings.Contains(tag, "hex"):
-					s := hex.EncodeToString(raw)
-					if r.IntN(3) == 0 {
-						s = strings.ToUpper(s)
-					}
-					f.SetString(s)
-					what = "hex"
-				case strings.Contains(tag, "base64"):
-					s := base64.StdEncoding.EncodeToString(raw)
-					if r.IntN(2) == 0 {
-						s = strings.TrimRight(s, "=")
-						what = "base64-unpadded"
-					} else {
-						what = "base64"
-					}
-					f.SetString(s)
-				case strings.Contains(tag, "base32"):
-					s := base32.HexEncoding.WithPadding(base32.NoPadding).EncodeToString(raw)
-					if r.IntN(2) == 0 {
-						s = strings.ToLower(s)
-					}
-					f.SetString(s)
-					what = "base32"
-				case strings.Contains(tag, "domain-name"):
-					continue
-				case tag == "octet" || tag == "txt" || tag == "":
-					f.SetString(bridge.EscStr(g.TextBytes(r.IntN(80))))
-					what = "text"
-				default:
-					continue
-				}
-			case reflect.Slice:
-				switch f.Type() {
-				case reflect.TypeOf(net.IP{}):
-					ip := net.IP(g.Bytes([]int{0, 4, 16, 16}[r.IntN(4)]))
-					if len(ip) == 16 && r.IntN(2) == 0 {
-						ip = net.IPv4(ip[12], ip[13], ip[14], ip[15])
-					}
-					f.Set(reflect.ValueOf(ip))
-					what = "ip"
-				case reflect.TypeOf([]string{}):
-					var ss []string
-					for x := r.IntN(4); x > 0; x-- {
-						ss = append(ss, bridge.EscStr(g.TextBytes(r.IntN(300))))
-					}
-					f.Set(reflect.ValueOf(ss))
-					what = "strings"
-				default:
-					continue
-				}
-			default:
-				continue
-			}
-			touched = append(touched, sf.Name+":"+what)
-		}
+		touched := handMutate(g, rr)
 		if len(touched) == 0 {
 			continue
 		}
@@ -174,4 +89,104 @@ func c08Struct(w *core.W, j int) {
 			}
 		}
 	}
+}
+
+// handMutate sets one or two fields of the record (for an OPT: of one of its options) by hand, the way
+// a program filling in the struct might: integers (including the length companions of other fields),
+// hex/base64/base32 text in either case and padding, text with escapes, addresses in their 0-, 4- and
+// 16-octet forms. It returns what it set.
+func handMutate(g *model.Gen, rr dns.RR) []string {
+	v := reflect.ValueOf(rr)
+	if o, ok := rr.(*dns.OPT); ok && len(o.Option) > 0 && g.R.IntN(4) > 0 {
+		v = reflect.ValueOf(o.Option[g.R.IntN(len(o.Option))])
+	}
+	if v.Kind() != reflect.Ptr || v.Elem().Kind() != reflect.Struct {
+		return nil
+	}
+	return handMutateStruct(g, v.Elem())
+}
+
+func handMutateStruct(g *model.Gen, sv reflect.Value) []string {
+	r := g.R
+	var cand []int
+	for i := 0; i < sv.NumField(); i++ {
+		if sv.Type().Field(i).Name != "Hdr" && sv.Field(i).CanSet() {
+			cand = append(cand, i)
+		}
+	}
+	if len(cand) == 0 {
+		return nil
+	}
+	var touched []string
+	for n := 1 + r.IntN(2); n > 0; n-- {
+		i := cand[r.IntN(len(cand))]
+		f := sv.Field(i)
+		sf := sv.Type().Field(i)
+		tag := sf.Tag.Get("dns")
+		what := ""
+		switch f.Kind() {
+		case reflect.Uint8, reflect.Uint16, reflect.Uint32, reflect.Uint64:
+			bits := f.Type().Bits()
+			val := []uint64{0, 1, 2, uint64(1)<<uint(bits) - 1, r.Uint64() >> uint(64-bits), uint64(r.IntN(40))}[r.IntN(6)]
+			f.SetUint(val)
+			what = "int"
+		case reflect.String:
+			raw := g.Bytes(r.IntN(60))
+			switch {
+			case strings.Contains(tag, "hex"):
+				s := hex.EncodeToString(raw)
+				if r.IntN(3) == 0 {
+					s = strings.ToUpper(s)
+				}
+				f.SetString(s)
+				what = "hex"
+			case strings.Contains(tag, "base64"):
+				s := base64.StdEncoding.EncodeToString(raw)
+				if r.IntN(2) == 0 {
+					s = strings.TrimRight(s, "=")
+					what = "base64-unpadded"
+				} else {
+					what = "base64"
+				}
+				f.SetString(s)
+			case strings.Contains(tag, "base32"):
+				s := base32.HexEncoding.WithPadding(base32.NoPadding).EncodeToString(raw)
+				if r.IntN(2) == 0 {
+					s = strings.ToLower(s)
+				}
+				f.SetString(s)
+				what = "base32"
+			case strings.Contains(tag, "domain-name"):
+				continue
+			case tag == "octet" || tag == "txt" || tag == "":
+				f.SetString(bridge.EscStr(g.TextBytes(r.IntN(80))))
+				what = "text"
+			default:
+				continue
+			}
+		case reflect.Slice:
+			switch f.Type() {
+			case reflect.TypeOf(net.IP{}):
+				ip := net.IP(g.Bytes([]int{0, 4, 16, 16}[r.IntN(4)]))
+				if len(ip) == 16 && r.IntN(2) == 0 {
+					ip = net.IPv4(ip[12], ip[13], ip[14], ip[15])
+				}
+				f.Set(reflect.ValueOf(ip))
+				what = "ip"
+			case reflect.TypeOf([]string{}):
+				var ss []string
+				for x := r.IntN(4); x > 0; x-- {
+					ss = append(ss, bridge.EscStr(g.TextBytes(r.IntN(300))))
+				}
+				f.Set(reflect.ValueOf(ss))
+				what = "strings"
+			default:
+				continue
+			}
+		default:
+			continue
+		}
+		touched = append(touched, sf.Name+":"+what)
+	}
+	return touched
 }
